@@ -56,6 +56,7 @@ func (st *sStream) classify(nr *netReq) (kind string, seg *sSeg) {
 // oracleC11 replays the statement's rule over the request log and the playlist states served.
 func oracleC11(r *Run, w *cliWorld, o *stubOrigin) {
 	anyStop := false
+	var notAtEnd []string
 	for si, st := range o.streams {
 		// requests of this stream in the order the client issued them
 		type ev struct {
@@ -189,6 +190,9 @@ func oracleC11(r *Run, w *cliWorld, o *stubOrigin) {
 		if expectErr != "" && expectErr != "eos" {
 			anyStop = true
 		}
+		if expectErr != "eos" {
+			notAtEnd = append(notAtEnd, fmt.Sprintf("%s (last requested segment %d)", st.name, cur))
+		}
 		// the final outcome
 		if si == 0 && w.waitSeen {
 			switch {
@@ -208,7 +212,18 @@ func oracleC11(r *Run, w *cliWorld, o *stubOrigin) {
 	}
 	// no stream's playlist history calls for a stop, the network is fault-free: the client must still be running or
 	// have ended with ErrClientEOS
-	if w.waitSeen && w.waitErr != nil && !errors.Is(w.waitErr, gohlslib.ErrClientEOS) && !anyStop {
+	// (scripted playlists advance per poll and independently per stream: renditions that drift more than the
+	// client's 10 s limit apart end playback by design)
+	drift := false
+	if w.waitSeen && w.waitErr != nil && w.waitErr.Error() == "difference between DTS and RTC is too big" && len(o.streams) > 1 {
+		for _, st := range o.streams {
+			if st.mode == "scripted" {
+				drift = true
+				r.Probe("scripted-renditions-drifted-apart")
+			}
+		}
+	}
+	if w.waitSeen && w.waitErr != nil && !errors.Is(w.waitErr, gohlslib.ErrClientEOS) && !anyStop && !drift {
 		r.Fail("outcome", "unexpected-stop", "no playlist state served calls for a stop and no fault was injected, but Wait yielded %s", describeErr(w.waitErr))
 		return
 	}
@@ -222,6 +237,10 @@ func oracleC11(r *Run, w *cliWorld, o *stubOrigin) {
 	}
 	if w.waitSeen && errors.Is(w.waitErr, gohlslib.ErrClientEOS) && !allEOS {
 		r.Fail("outcome", "early-eos", "Wait yielded ErrClientEOS although not every playlist had reached ENDLIST")
+	}
+	// ... and only after the last segment of every stream has been requested
+	if w.waitSeen && errors.Is(w.waitErr, gohlslib.ErrClientEOS) && len(notAtEnd) > 0 && !r.Failed() {
+		r.Fail("outcome", "eos-before-last-segment", "Wait yielded ErrClientEOS although the last segment of the ENDLIST playlist was never requested for: %s", strings.Join(notAtEnd, ", "))
 	}
 }
 
@@ -255,7 +274,7 @@ func scC11(r *Run) {
 }
 
 func init() {
-	register(&PropDef{ID: "C11", Quick: 2000, Thorough: 200000, Profiles: []ProfileDef{
+	register(&PropDef{ID: "C11", Quick: 7000, Thorough: 300000, Profiles: []ProfileDef{
 		{Name: "stub", Share: 6, Sc: scC11},
 		{Name: "ll-muxer", Share: 1, Sc: scC11LL},
 	}})
